@@ -8,7 +8,7 @@ SETUP = ["CREATE TEMP TABLE t (a INT, b TEXT)", "INSERT INTO t VALUES (1, 'x'), 
          "CREATE SCHEMA s1", "CREATE TEMP TABLE s1.t (a INT)", "CREATE TEMP VIEW v AS SELECT a FROM t"]
 
 OBS = ["SELECT * FROM list_schemas()", "SELECT * FROM list_tables()", "SELECT * FROM list_views()",
-       "SHOW partitions", "SHOW batch_size", "SHOW enable_optimizer", "SELECT a, b FROM t", "SELECT a, b FROM u",
+       "SHOW partitions", "SHOW batch_size", "SHOW enable_optimizer", "SHOW enable_hash_joins", "SHOW verify_optimized_plan", "SELECT a, b FROM t", "SELECT a, b FROM u",
        "SELECT a FROM s1.t", "SELECT a FROM v"]
 PROBE = "SELECT count(*) FROM (VALUES (1), (2)) p(x)"
 
@@ -77,6 +77,12 @@ def driver_inputs(rng, n):
         out.append("VALUES " + ", ".join(f"({i})" for i in range(d)))
         out.append("SELECT '" + "x" * d + "'")
         out.append("SELECT 1 " + "UNION ALL SELECT 1 " * min(d, 300))
+    # two statements without a separator / trailing garbage: the error echoes the unparsed tail; multi-byte characters at every
+    # offset around typical truncation lengths of such messages
+    for cut in (16, 32, 40, 64, 80, 100, 128, 256):
+        for off in range(-4, 1):
+            out.append("SELECT 1 SELECT '" + "x" * (cut + off - 8) + "é𝄞é𝄞é𝄞" + "'")
+            out.append("SELECT a FROM t )" + " " * (cut + off - 2) + "ééééé𝄞𝄞")
     alphabet = list("SELECTFROMWHERE()*,.;'\"-+/=<>! \n\t\x00\\%_$:|&^~[]{}0123456789abctu") + ["é", "𝄞", "‮", "﻿"]
     for i in range(n):
         k = rng.choice([1, 3, 10, 40, 200])
@@ -128,8 +134,39 @@ def run(tier):
             steps.append({"sql": sql})
             steps += [{"sql": s} for s in OBS]
             steps.append({"sql": PROBE})
-        cases.append({"id": len(cases), "rt": {"kind": "threaded", "threads": 2}, "steps": steps, "_chunk": chunk,
+        cases.append({"id": len(cases), "rt": {"kind": "threaded", "threads": 2}, "steps": steps, "_chunk": chunk, "_k": len(SETUP),
                       "timeout": 120})
+    # the same failing statements in sessions whose settings were changed first: a failure must leave every setting as it was
+    failing = [("runtime", s_) for s_ in RUNTIME] + [("illtyped", s_) for s_ in ILLTYPED] + \
+              [("illtyped", "SELECT * FROM (SELECT a FROM t INTERSECT SELECT a FROM t) s WHERE false"),
+               ("illtyped", "SELECT * FROM (SELECT a FROM t EXCEPT SELECT a FROM u) s WHERE 1 = 0")]
+    # statements whose result stream completes while pipelines of the same query are still running (LIMIT reached early):
+    # the leftovers finish during the following statements and must not disturb the session
+    early = [("early_exit", q_) for q_ in (
+        "SELECT a FROM generate_series(1, 3000000) g(a) WHERE a < 0 UNION ALL SELECT a FROM generate_series(1, 50000) h(a) LIMIT 3",
+        "SELECT a FROM generate_series(1, 2000000) g(a) WHERE a % 1999999 = 0 UNION ALL SELECT a FROM t LIMIT 1",
+        "SELECT * FROM generate_series(1, 5000000) g(a) LIMIT 2",
+        "SELECT count(*) FROM generate_series(1, 2000000) g(a) UNION ALL SELECT a FROM generate_series(1, 10000) h(a) LIMIT 5",
+        "SELECT g.a FROM generate_series(1, 200000) g(a) JOIN generate_series(1, 200000) h(a) ON g.a = h.a LIMIT 1")]
+    for prelude in (["SET partitions = 1"], ["SET partitions = 2", "SET batch_size = 64"]):
+        steps = [{"sql": s_} for s_ in SETUP + prelude + OBS]
+        for fam, sql in early:
+            steps.append({"sql": sql})
+            steps += [{"sql": s_} for s_ in OBS]
+            steps.append({"sql": PROBE})
+        cases.append({"id": len(cases), "rt": {"kind": "threaded", "threads": 2}, "steps": steps, "_chunk": list(early),
+                      "_k": len(SETUP) + len(prelude), "timeout": 240})
+    for prelude in (["SET verify_optimized_plan = true"], ["SET enable_optimizer = false", "SET partitions = 3"],
+                    ["SET enable_hash_joins = false", "SET batch_size = 7"]):
+        for i in range(0, len(failing), per):
+            chunk = failing[i:i + per]
+            steps = [{"sql": s_} for s_ in SETUP + prelude + OBS]
+            for fam, sql in chunk:
+                steps.append({"sql": sql})
+                steps += [{"sql": s_} for s_ in OBS]
+                steps.append({"sql": PROBE})
+            cases.append({"id": len(cases), "rt": {"kind": "threaded", "threads": 2}, "steps": steps,
+                          "_chunk": [(fam + "+settings", sql) for fam, sql in chunk], "_k": len(SETUP) + len(prelude), "timeout": 120})
 
     def execute(cs):
         send = [{k: v for k, v in c.items() if not k.startswith("_")} for c in cs]
@@ -142,7 +179,7 @@ def run(tier):
             retry += c["_chunk"]
             continue
         st = r["steps"]
-        k = len(SETUP)
+        k = c["_k"]
         pre = canon(st[k:k + len(OBS)])
         pos = k + len(OBS)
         for fam, sql in c["_chunk"]:
